@@ -51,6 +51,17 @@ def scanner_girs(rng, n_each):
     for b in range(n_each):
         w = c16.gen_world(rng, b)
         out.append(('declaration world #%d' % b, c16_run.build(w), w['includes']))
+    import c03
+    for b in range(n_each):
+        # identifier-level annotations and tags (Since/Deprecated with and without version and text, Stability, attributes,
+        # rename-to pairs, property/signal/field/virtual-method blocks)
+        w = c03.gen_world(rng)
+        comments, line = [], 1000
+        for key, blk, text in w['blocks']:
+            comments.append((text, '/src/foo.c', line))
+            line += text.count('\n') + 3
+        r = S.run(w['syms'], comments=comments, includes=['GLib', 'GObject', 'Gio'], dump=ET.ElementTree(ET.fromstring(w['dump'])), warnings=False)
+        out.append(('documented world #%d' % b, r.xml, ['GLib', 'GObject', 'Gio']))
     import c07
     for b in range(n_each):
         out.append(('constants and members world #%d' % b, misc_world(rng, S, c07), ['GLib', 'GObject']))
@@ -89,7 +100,9 @@ def misc_world(rng, S, c07):
         syms.append(S.FS(S.CSYMBOL_TYPE_TYPEDEF, 'FooMiscU%d' % r, base_type=S.FT(S.CTYPE_UNION, '_FooMiscU%d' % r), line=line + 3))
         syms.append(S.FS(S.CSYMBOL_TYPE_UNION, '_FooMiscU%d' % r, base_type=S.FT(S.CTYPE_UNION, '_FooMiscU%d' % r, child_list=kids), line=line + 4))
         line += 10
-    r = S.run(syms, includes=['GLib', 'GObject'], warnings=False)
+    # a type of an included namespace whose name begins with the name of this one (Foo / FooExt)
+    syms.append(S.func('foo_misc_use_ext', S.VOID, [S.param('thing', S.ptr(S.td('FooExtThing')))], line=300))
+    r = S.run(syms, includes=['GLib', 'GObject', 'FooExt'], warnings=False)
     return r.xml
 
 
@@ -260,7 +273,7 @@ def main(tier, seed):
             n = os.path.basename(f)[:-len('-expected.gir')]
             shutil.copy(f, os.path.join(inc, n + '.gir'))
             shipped.append(('shipped ' + os.path.basename(f), open(f, encoding='utf-8').read(), None, n))
-        for n in ('GLib-2.0', 'GObject-2.0', 'Gio-2.0', 'Base-1.0', 'Mid-1.0', 'cairo-1.0', 'Utility-1.0'):
+        for n in ('GLib-2.0', 'GObject-2.0', 'Gio-2.0', 'Base-1.0', 'Mid-1.0', 'FooExt-1.0', 'cairo-1.0', 'Utility-1.0'):
             rc, o = run([compiler, '--includedir', inc, os.path.join(inc, n + '.gir'), '-o', os.path.join(tmp, n + '.typelib')])
             if rc != 0:
                 ck.tie_broken('harness', 'cannot compile the stub dependency %s: %s' % (n, o[-500:]))
